@@ -393,7 +393,38 @@ where
         }
     }
 
+    /// Runs `resolve` unless `ty` names a declaration that is already being expanded
+    /// (`type A = A | string`, `interface A extends A {}`): following such a cycle would never
+    /// end, so it is reported and resolves to `on_cycle`.
+    fn guard_cycle<R>(&self, ty: &TsType, on_cycle: R, resolve: impl FnOnce() -> R) -> R {
+        let TsType::TsTypeRef(TsTypeRef {
+            type_name: TsEntityName::Ident(ident),
+            ..
+        }) = ty
+        else {
+            return resolve();
+        };
+        let key = (ident.sym.clone(), ident.ctxt);
+        if !self.type_aliases.contains_key(&key) && !self.interfaces.contains_key(&key) {
+            return resolve();
+        }
+        if self.expanding_types.borrow().contains(&key) {
+            HANDLER.with(|handler| {
+                handler.span_err(ty.span(), "Type references itself.");
+            });
+            return on_cycle;
+        }
+        self.expanding_types.borrow_mut().push(key);
+        let resolved = resolve();
+        self.expanding_types.borrow_mut().pop();
+        resolved
+    }
+
     fn resolve_type_elements(&self, ty: &TsType, props: &mut Vec<RefinedTsTypeElement>) {
+        self.guard_cycle(ty, (), || self.resolve_type_elements_inner(ty, props))
+    }
+
+    fn resolve_type_elements_inner(&self, ty: &TsType, props: &mut Vec<RefinedTsTypeElement>) {
         match ty {
             TsType::TsTypeLit(TsTypeLit { members, .. }) => {
                 props.extend(members.iter().filter_map(|member| match member {
@@ -622,6 +653,12 @@ where
     }
 
     fn resolve_string_or_union_strings(&self, ty: &TsType) -> Vec<Atom> {
+        self.guard_cycle(ty, vec![], || {
+            self.resolve_string_or_union_strings_inner(ty)
+        })
+    }
+
+    fn resolve_string_or_union_strings_inner(&self, ty: &TsType) -> Vec<Atom> {
         match ty {
             TsType::TsLitType(TsLitType {
                 lit: TsLit::Str(key),
@@ -673,6 +710,10 @@ where
     }
 
     fn resolve_indexed_access(&self, obj: &TsType, index: &TsType) -> Option<TsType> {
+        self.guard_cycle(obj, None, || self.resolve_indexed_access_inner(obj, index))
+    }
+
+    fn resolve_indexed_access_inner(&self, obj: &TsType, index: &TsType) -> Option<TsType> {
         match obj {
             TsType::TsTypeRef(TsTypeRef {
                 type_name: TsEntityName::Ident(ident),
@@ -976,6 +1017,10 @@ where
     }
 
     fn infer_runtime_type(&self, ty: &TsType) -> IndexSet<Option<Atom>> {
+        self.guard_cycle(ty, IndexSet::new(), || self.infer_runtime_type_inner(ty))
+    }
+
+    fn infer_runtime_type_inner(&self, ty: &TsType) -> IndexSet<Option<Atom>> {
         let mut runtime_types = IndexSet::with_capacity(1);
         match ty {
             TsType::TsKeywordType(keyword) => match keyword.kind {
